@@ -82,6 +82,7 @@ def explore(fn, sig=None, budget_s=60.0, per_path_timeout=30.0, max_paths=10**9,
     stats = {"paths": 0, "confirmed_paths": 0, "skipped_paths": 0,
              "unknown_paths": 0, "refuted_paths": 0}
     cexs = []
+    consecutive_skips = 0
     verdict = "inconclusive"
     reason = "budget"
     unknown_reasons = {}
@@ -125,6 +126,15 @@ def explore(fn, sig=None, budget_s=60.0, per_path_timeout=30.0, max_paths=10**9,
                 elif status is VerificationStatus.REFUTED:
                     stats["refuted_paths"] += 1
                 top, exhausted = space.bubble_status(CallAnalysis(status))
+            if status is None:
+                consecutive_skips += 1
+            else:
+                consecutive_skips = 0
+            if consecutive_skips >= 400 and stats["unknown_paths"] > 0:
+                # after a timed-out path CrossHair keeps producing fresh ways to fail the
+                # precondition (string lengths...); nothing more will be learned in this run
+                reason = "no progress: %d consecutive precondition failures after a path timeout" % consecutive_skips
+                break
             if cex is not None:
                 cexs.append(cex)
                 if stop_on_first:
